@@ -10,6 +10,7 @@ LEVEL_TEXT["C14"] = (
     "(hilbert_exact); hilbert(x, n) = hilbert(x padded / truncated to n) including the n < 3 exceptions (hilbertN_eq, every scalar type). "
     "HILBERTFILTER -- for every accepted tap vector (odd length M >= 3), every stream, every framing: real part of output k is x[k - M/2] (0 before), "
     "imaginary part is sum_{j<=k} h[j] x[k-j] (hf_eq, on top of C07's FirFilter theorems); design_fir returns M = flen|1 taps for every ifft. "
+    "UNCONDITIONAL (Props/C14Total): with C01/C02 for the library's own transform models, hilbert_total / hilbertN_total hold for every 3 <= n < 2^31 with no hypothesis on the transforms (hilbert_re_total, hilbert_spectrum_total, hilbert_onesided_total; n < 3 is rejected: hilbert_err_total). (Props/C14Gen) the Tuner theorem is transported to the REGENERATED per-sample loop body (tunerStep_eq, tuner_run_eq, tuner_gen_eq). "
     "Tie: hand-written model (Model/Hilbert.lean; fft/ifft instantiated with the C01 plan model, FirFilter/kaiser/firtype with the C07/C11 models) "
     "against the library: bit-exact for Tuner (streams to 6.5 fs, rates 8..1e5; counter values around 2^16, 2^24 and, thorough, 2^31 and 2^32 of single-object streams), Delay, design_fir taps (all lengths/tw sampled), "
     "HilbertFilter::process; hilbert to 1e-10 of the line scale (Bluestein lengths differ by 6e-13). "
@@ -18,8 +19,8 @@ LEVEL_TEXT["C14"] = (
 )
 
 PROPS["C14"] = {
-    "gen": ["Cmplx", "SmallFft", "Consts"],
-    "lean_props": ["DspVerif.Props.C14", "DspVerif.Props.C14Total"],
+    "gen": ["Cmplx", "SmallFft", "Consts", "Slice", "StepsBase", "StepsTuner", "StepsArray", "StepsSlice", "StepsFir", "StepsDelay"],
+    "lean_props": ["DspVerif.Props.C14", "DspVerif.Props.C14Total", "DspVerif.Props.C14Gen"],
     "harness": [{"src": "c14.cpp", "cfg": "rel",
                  "tol": {"hilb": (1e-10, 0.0), "hilbg": (1e-10, 0.0), "hilbn": (1e-10, 0.0),
                          "hfd": (1e-13, 0.0), "hfp": (1e-13, 0.0), "tun": (1e-13, 0.0), "tunx": (1e-13, 0.0),
